@@ -176,6 +176,11 @@ VARIANTS = [
          old="                tree._flops += new_flops - old_flops", new="                tree._flops -= old_flops - new_flops"),
     dict(name="twin: remove_ind uses an augmented multiplication for the slice count", kind="twin", file=CORE,
          old="            tree.multiplicity = tree.multiplicity * d", new="            tree.multiplicity *= d"),
+    dict(name="seed C04_13: tie between equal-extent children broken by the current size", kind="break", file=CORE,
+         old="            sortx = -min(x)\n            sorty = -min(y)\n", new="            sortx = (self.get_size(x), -min(x))\n            sorty = (self.get_size(y), -min(y))\n",
+         expect=("C04-ORIENT", "contract_nodes_pair")),
+    dict(name="twin: tie broken by the largest leaf", kind="twin", file=CORE,
+         old="            sortx = -min(x)\n            sorty = -min(y)\n", new="            sortx = (-min(x), -max(x))\n            sorty = (-min(y), -max(y))\n"),
 ]
 for v in VARIANTS:
     v.pop("edits", None) if v.get("edits") is None else None
